@@ -8,7 +8,7 @@ R_AX = "axioms reported by Print Assumptions: the four Coq Reals axioms (Classic
 EXACT = "exact real arithmetic in theorems; floats only in the correspondence"
 
 reg(Prop("C13", "irrigation strategies honour their contracts",
-    [("rainirr", 12000, 120000), ("rootzone", 3000, 30000)],
+    [("rainirr", 12000, 120000), ("rootzone", 3000, 30000), ("inputs", 1500, 20000), ("day", 2000, 20000)],
     trace_mon("C13", 60, 900, method=lambda r: r.choice([0, 1, 1, 2, 2, 3, 3, 4, 5, 5])),
     [R_AX, "modelled: irrigation.py, growth_stage.py (Water/RainIrr.v), root_zone_water.py (Water/RootZone.v); schedule re-indexing in Init/Inputs.v when claimed; "
            "NOT verified here: that run_single_timestep passes the right arguments (Day.v plumbing replay, C06/C01)"],
@@ -17,7 +17,7 @@ reg(Prop("C13", "irrigation strategies honour their contracts",
     "Monitor: IrrDay column against dap, dates, schedule and a wrapper capturing the decision's inputs on real runs"))
 
 reg(Prop("C19", "shallow groundwater behaves consistently",
-    [("gw", 12000, 120000)],
+    [("gw", 12000, 120000), ("inputs", 1500, 20000)],
     trace_mon("C19", 50, 800, gw=lambda r: r.random() < 0.8),
     [R_AX, "modelled: check_groundwater_table.py, capillary_rise.py, groundwater_inflow.py (Water/Groundwater.v); the water-table series (read_groundwater_table) in Init/Inputs.v when claimed"],
     [EXACT, "capillary rise may exceed adjusted field capacity by the 5e-5 rounding of round(fcadj-th,4) (theorem capillary_cap; capillary_in_bounds_refuted shows th can pass th_s by that amount when fcadj = th_s)"],
@@ -37,7 +37,7 @@ reg(Prop("C02", "rain and irrigation are fully partitioned at the surface",
     "ponding, bund-removal day, low-Ksat layers, back-up loop up to the surface; monitor: rows vs the weather record and the irrigation of the same step"))
 
 reg(Prop("C01", "daily soil-water balance closes",
-    [("drainage", 5000, 60000), ("infiltration", 5000, 60000), ("evap", 4000, 60000), ("gw", 5000, 60000), ("roots", 4000, 40000), ("transp", 4000, 60000)],
+    [("drainage", 5000, 60000), ("infiltration", 5000, 60000), ("evap", 4000, 60000), ("gw", 5000, 60000), ("roots", 4000, 40000), ("transp", 4000, 60000), ("day", 3000, 40000)],
     trace_mon("C01", 70, 1200),
     [R_AX, WATER_NOTE],
     [EXACT, "profiles with th_dry < th_wp < th_fc < th_s strictly, tau > 0, Ksat > 0 (wf_prof); water contents within [th_dry, th_s] on entry (C03 invariant)"],
@@ -45,14 +45,14 @@ reg(Prop("C01", "daily soil-water balance closes",
     "(storage before/after each wrapped process vs the flux it returns) and day closure from the tables, 1e-6 mm (+ the capillary-rise allowance), carry-over between days and at season resets"))
 
 reg(Prop("C03", "soil water content and ponding stay within physical limits",
-    [("drainage", 5000, 60000), ("infiltration", 5000, 60000), ("evap", 4000, 60000), ("gw", 5000, 60000), ("roots", 4000, 40000), ("transp", 4000, 60000), ("rootzone", 3000, 30000)],
+    [("drainage", 5000, 60000), ("infiltration", 5000, 60000), ("evap", 4000, 60000), ("gw", 5000, 60000), ("roots", 4000, 40000), ("transp", 4000, 60000), ("rootzone", 3000, 30000), ("day", 2000, 30000)],
     trace_mon("C03", 70, 1200, bunds=lambda r: r.random() < 0.3, gw=lambda r: r.random() < 0.35),
     [R_AX, WATER_NOTE],
     [EXACT, "wf_prof; capillary rise may overshoot adjusted field capacity by 5e-5 (round(.,4)), hence th_s by the same amount only when fcadj = th_s (capillary_in_bounds_refuted; the monitor measures whether real runs reach it)"],
     "as C01; monitor: min/max of every th column against the initialised profile, ponding vs bund height, Wr >= 0; saturated starts, 300 mm storms, droughts, tables inside the profile, Paddy"))
 
 reg(Prop("C04", "fluxes are non-negative and actual never exceeds potential",
-    [("rainirr", 6000, 80000), ("drainage", 4000, 50000), ("infiltration", 4000, 50000), ("evap", 5000, 80000), ("gw", 4000, 50000), ("transp", 5000, 80000), ("kernels", 3000, 30000)],
+    [("rainirr", 6000, 80000), ("drainage", 4000, 50000), ("infiltration", 4000, 50000), ("evap", 5000, 80000), ("gw", 4000, 50000), ("transp", 5000, 80000), ("kernels", 3000, 30000), ("day", 2000, 30000)],
     trace_mon("C04", 70, 1200, crop=lambda r: r.choice([None, None, "DryBean", "Soybean", "SugarCane", "Cotton", "Quinoa"]) or r.choice(sim.CROPS)),
     [R_AX, WATER_NOTE],
     [EXACT, "parameter ranges of espot_ranges (0<=kex, 0<=fwcc<=100, 0<=CCxW<=1, mulch in range) and wf_prof"],
@@ -72,18 +72,19 @@ reg(Prop("C05", "crop state stays inside its configured envelope",
     "monitor: trajectories of get_crop_growth() against the season's crop parameters, restrictive-layer soils included"))
 
 reg(Prop("C06", "yields and seasonal totals agree with the daily tables",
-    [("yield", 8000, 80000), ("clock", 100, 1000)],
+    [("yield", 8000, 80000), ("clock", 100, 1000), ("day", 3000, 40000)],
     trace_mon("C06", 70, 1200, method=lambda r: r.choice([0, 1, 2, 3, 4, 4, 5]), strict=lambda r: True),
     [R_AX, CROP_NOTE, "summary-row theorems on Clock.v are closed under the global context and hold for every physics; the plumbing of the row values is Day.v (L2 replay) when present"],
     [EXACT, "WPy <= 100, ET0 > 0, YldWC > 0 (catalogue_YldWC_refuted lists the 4 catalogue crops without YldWC)"],
     "L1 yield suite (biomass, HI, yield lines executed from the source text of run_single_timestep), clock suite; monitor: get_simulation_results() vs get_crop_growth()/get_water_flux() per season, "
     "every strategy incl. net + pre-irrigation + seasonal cap, crops that die early"))
 
+DAY_SUITE = [("day", 3000, 40000)]
 GEN_NOTE = ("the tables StateFields.v / StoreSites.v are REGENERATED from /repo's source text on every run by the fail-closed ast translator harness/gen_facts.py "
             "(alias rules: plain assignment, attribute, basic index, tuple unpacking, per-function return summaries; heap-mediated aliasing and callables held in variables are not tracked) — the translator is trusted")
 
 reg(Prop("C08", "seasons are independent when the off-season is not simulated",
-    [("day", 40, 400)],
+    DAY_SUITE,
     worker_mon("C08", monitors2.worker_C08, 36, 500, timeout=600, off_season=False, seasons=lambda r: r.choice([2, 3, 3]), start_mode="at", end_mode="after",
                method=lambda r: r.choice([0, 1, 1, 2, 2, 3, 4, 4, 5])),
     ["all theorems 'Closed under the global context' (finite tables, vm_compute lifted by forallb_forall)", GEN_NOTE,
@@ -130,7 +131,7 @@ reg(Prop("C10", "runs are deterministic and model instances are isolated",
     extra_obl=["translator run on the current source (fail-closed)"]))
 
 reg(Prop("C12", "configured parameters and weather stay read-only while stepping",
-    [("day", 40, 400)],
+    DAY_SUITE,
     worker_mon("C12", monitors2.worker_C12, 40, 600, timeout=900),
     ["all theorems 'Closed under the global context'", GEN_NOTE,
      "Day.v: day_proc returns the state only — parameters, profile and weather do not occur in its result type (frame by typing), tied by the L2 plumbing replay"],
@@ -140,3 +141,82 @@ reg(Prop("C12", "configured parameters and weather stay read-only while stepping
     "reports object, field, step",
     replay=lambda d: _base.replay_worker(monitors2.worker_C12, d),
     extra_obl=["translator run on the current source (fail-closed)"]))
+
+
+reg(Prop("C11", "inputs are not consumed by a run",
+    [("inputs", 2500, 30000), ("calendar", 2500, 30000), ("soilinit", 800, 8000)],
+    worker_mon("C11", monitors2.worker_C11, 40, 600, timeout=900, method=lambda r: r.choice([0, 1, 2, 3, 3, 4, 5])),
+    ["all theorems 'Closed under the global context'", GEN_NOTE,
+     "modelled write-backs: clipped weather table (Init/Inputs.v clip/bind), CO2.current_concentration/co2_data_processed, crop.harvest_date (Init/Calendar.v); the deepened soil.profile DataFrame and the crop-calendar attributes written on the user's Crop are covered by the store-site whitelist and by the monitor only",
+     "pandas object internals are trusted"],
+    ["initialising again is idempotent for weather tables that have a record on the start and on the end day (init_idempotent_weather; init_idempotent_refuted documents tables with gaps at the window ends)"],
+    "monitor: re-run the same model object twice and build new models from the same soil/crop/weather/irrigation/field/groundwater/CO2 objects, bitwise tables; every strategy incl. dated schedules, deep-rooted crops (profile deepening), GDD crops, CO2 options",
+    replay=lambda d: _base.replay_worker(monitors2.worker_C11, d),
+    extra_obl=["translator run on the current source (fail-closed)"]))
+
+reg(Prop("C14", "no look-ahead: past outputs do not depend on future weather",
+    [("clock", 120, 1200), ("inputs", 2000, 20000), ("day", 2000, 30000)],
+    worker_mon("C14", monitors2.worker_C14, 30, 500, timeout=900),
+    ["all theorems 'Closed under the global context'; Clock.v theorems hold for every physics",
+     "that one day's processes read only that day's weather record is the typing of Clock.proc (one W argument) tied by the Day.v replay (weather_step fields) and the clock suite; "
+     "that the reset reads the weather only for thermal-time crops is the regenerated fact reset_weather_guard_ok (C08.v)"],
+    ["calendar-day crops (CalendarType = 1, SwitchGDD = 0) for the perturbation statement, as the property says; extending the end date is explored by the monitor (season-list prefix property by C07_calendar's closed form, not stated as a separate theorem)"],
+    "monitor: pairs of runs with weather perturbed from a random day t on (temperature, rain, ET0), weather perturbed/clipped outside the window, extended end dates; bitwise on rows before t / completed seasons",
+    replay=lambda d: _base.replay_worker(monitors2.worker_C14, d)))
+
+reg(Prop("C15", "weather is bound by date and by column name",
+    [("inputs", 6000, 40000)],
+    worker_mon("C15", monitors2.worker_C15, 30, 400, timeout=900),
+    ["all theorems 'Closed under the global context' and hold for every number type",
+     "modelled: read_weather_inputs.py, the weather-matrix construction in core._initialize, the per-step lookup (Init/Inputs.v); pandas column selection / boolean row filtering are list functions tied by the inputs suite (all 120 column permutations, extra columns, 5 index kinds, leading/trailing rows)"],
+    ["bind_by_date needs one record per day, sorted, covering the window (what prepare_weather produces); for tables with gaps the code uses the rows positionally (bind_positional, Example bind_gap_wrong_day)"],
+    "monitor: bitwise outputs of full runs fed with transformed but equivalent tables (permuted / extra columns, re-indexed, string index, rows dropped outside the window, combinations) + row k carries date start+k with that date's values",
+    replay=lambda d: _base.replay_worker(monitors2.worker_C15, d)))
+
+
+def _c16_payloads(ctx):
+    thorough = ctx["tier"] != "quick"
+    pl = []
+    n = 150 if not thorough else 2500
+    for i in range(n):
+        rng = rng_for("C16", i)
+        # catalogue sweep: crop x soil x strategy round-robin, everything else random
+        crop = sim.CROPS[i % len(sim.CROPS)]
+        soil = (sim.SOILS + ["custom", "texture"])[(i // 3) % (len(sim.SOILS) + 2)]
+        cfg = sim.gen_config(rng, crop=crop, soil_type=soil, method=i % 6, strict=False)
+        pl.append({"cfg": cfg})
+    return pl
+
+
+def _c16_monitor(ctx):
+    pl = _c16_payloads(ctx)
+    r = _base.run_monitor(monitors2.worker_C16, pl, timeout=600)
+    return r
+
+
+reg(Prop("C16", "every valid configuration runs to completion with finite outputs",
+    [("calendar", 4000, 40000), ("soilinit", 800, 8000), ("inputs", 1500, 20000), ("kernels", 3000, 30000), ("clock", 100, 1000)],
+    _c16_monitor,
+    [R_AX, "FloatAxioms.* (specification of Coq's primitive floats) enter through the interval tactic in the texture-box lemmas only",
+     "PARTIAL: proved = catalogue obligations over the regenerated crop table, exact classification of initialisation rejections (Init/Calendar.v), termination of run loop and deepening, definedness of every process model under well-formedness; "
+     "NOT expressible = NaN/inf propagation in IEEE arithmetic, exceptions raised inside pandas/numpy: explored by the monitor only"],
+    [EXACT, "valid = the documented input constraints; the malformed streams of the L1 suites compare error kinds"],
+    "monitor: catalogue sweep 37 crops x 17 soil kinds x 6 strategies (round-robin) x random options (field management, groundwater, IWC, CO2, windows, storms); checks exception type/origin against the documented rejections and finiteness of every cell",
+    replay=lambda d: _base.replay_worker(monitors2.worker_C16, d)))
+
+reg(Prop("C18", "soil profile and initial water content are built as specified",
+    [("soilinit", 2500, 20000)],
+    worker_mon("C18", monitors2.worker_C18, 120, 1500, timeout=300, strict=lambda r: False),
+    [R_AX, "FloatAxioms.* through the interval tactic (texture boxes)",
+     "modelled: Soil (built-in ladder read through the real object, add_layer, add_layer_from_texture, fill_nan), deepening loop, create_soil_profile, initial water content (Init/SoilBuild.v); pandas ffill/map/groupby-mean (Kahan) are list functions tied by the suite; water-table overrides of the initial content are not modelled"],
+    [EXACT, "geometry theorem for whole-centimetre thickness lists; texture ordering proved on five boxes of the calibrated range (texture_ordered_partial), refuted at the corners (texture_ordered_refuted)"],
+    "Linit: 15 built-in soils, custom 1-3 layer hydraulic and texture soils, random dz lists, every crop's Zmax, every IWC type/method; monitor: the statement recomputed from the initialised model's arrays",
+    replay=lambda d: _base.replay_worker(monitors2.worker_C18, d)))
+
+reg(Prop("C20", "disabled features and neutral settings are inert",
+    [("evap", 4000, 60000), ("rainirr", 6000, 60000), ("infiltration", 4000, 40000), ("roots", 3000, 30000), ("calendar", 2000, 20000), ("day", 2000, 30000)],
+    worker_mon("C20", monitors2.worker_C20, 22, 300, timeout=900, method=lambda r: r.choice([0, 0, 0, 1, 2, 3, 4, 5])),
+    [R_AX, WATER_NOTE, "the curve-number flag gates the percentage at the call site in run_single_timestep (Day.v arg_rp, tied by the day replay)"],
+    [EXACT, "neutral irrigation settings: 0 <= MaxIrr, AppEff <= 200"],
+    "monitor: base vs transformed configuration, bitwise, each listed neutral transformation alone and combined; explicit default harvest date",
+    replay=lambda d: _base.replay_worker(monitors2.worker_C20, d)))
